@@ -262,6 +262,7 @@ class Weaver:
         param_plus = []
         twins = []
         loop_hdr = set()
+        sig_pats = []
         for (hd, body, lno) in sections:
             w = hd.split()
             if not w:
@@ -294,6 +295,7 @@ class Weaver:
                 ms = list(re.finditer(pat, src[sig_s:sig_e]))
                 if not ms:
                     raise Lost("%s::%s: signature pattern /%s/ not found" % (f, head["fn"], pat))
+                sig_pats.append((pat, repl))
                 for m in (ms if allf else ms[:1]):
                     add(sig_s + m.start(), sig_s + m.end(), m.expand(repl), "sig")
                     elog.append("sig: `%s` => `%s`" % (m.group(0), m.expand(repl)))
@@ -366,6 +368,10 @@ class Weaver:
             ts = T(it.arrow + 1).end
             te = T(it.where).start if it.where is not None else T(it.body_open).start
             ty = src[ts:te].strip()
+            for (pat, repl) in sig_pats:
+                ty = re.sub(pat, repl, ty)
+            # signature edits inside the return type are folded into the `ret` rewrite
+            edits[:] = [e for e in edits if not (e[5] == "sig" and ts <= e[0] and e[1] <= te)]
             add(ts, te, " (" + ret_name + ": " + ty + ")\n", "ret")
         contract = ""
         pos = T(it.body_open).start
@@ -389,6 +395,10 @@ class Weaver:
         self._auto_rules(src, toks, it, loops, add, elog, norules, f, head["fn"], twins)
 
         # apply -----------------------------------------------------------------
+        # an explicit site replacement (R5/R7) wins over automatic rules that fall inside its span
+        explicit = [(e[0], e[1]) for e in edits if e[5] == "R5/R7" and e[0] < e[1]]
+        edits = [e for e in edits if e[5] == "R5/R7" or not any(a <= e[0] and e[1] <= b and (e[0], e[1]) != (a, b) for (a, b) in explicit)
+                 or e[5] in ("contract", "hint")]
         edits.sort(key=lambda e: (e[0], 0 if e[0] == e[1] else 1, e[2], e[3]))
         # overlap check
         last_end = it.start
